@@ -3,7 +3,7 @@
    border), runs only through finite, i.e. in-band and max_step-admissible,
    cells, and its cost, penalties included, is exactly the value of that cell. *)
 From Coq Require Import ZArith List Lia String.
-From DV Require Import Cost Grid Dtw DtwSpec Traceback RelaxedEnd RelaxedEndSpec TracebackC CTrace.
+From DV Require Import Cost Grid Dtw DtwSpec Traceback RelaxedEnd RelaxedEndSpec TracebackC CTrace CTraceSim CWps.
 From DVGen Require Import Gen_ctrace.
 
 Theorem C05_traced_path_cost : forall u s1 s2 i j,
@@ -68,3 +68,26 @@ Proof. exact trace_start_is_the_corner_slot. Qed.
 Theorem C05_c_plain_decisions : forall t, In t trace_loops ->
   (tl_function t = "dtw_best_path" \/ tl_function t = "dtw_best_path_customstart")%string -> tl_decision t = "le_pen"%string.
 Proof. exact plain_decisions. Qed.
+
+(* (3) The two parts glued: the C loop -- canonical offsets and moves (the regenerated loops are the canonical ones:
+   C05_c_loops_are_canonical), active loop determined by rip -- run on a compact array W that holds the matrix M through
+   the layout (correspondence: C04 judges every slot of the compact array), from the layout slot of a finite cell, takes
+   exactly the steps of the abstract traceback with the C rule; hence the path it returns costs the value of its start
+   cell. *)
+Theorem C05_c_loops_are_canonical : forall t, In t trace_loops -> tgeometry t = tgeometry (tcanon (tl_region t)).
+Proof. exact trace_loops_are_canonical. Qed.
+
+Theorem C05_c_loop_path_cost : forall l1 l2 window0, (1 <= l1)%Z -> (1 <= l2)%Z -> (0 <= window0)%Z ->
+  forall d pen p1b p2b (W : Z -> Z -> cost),
+  (forall (i : nat) (s : Z), (Z.of_nat i <= l1)%Z -> (0 <= s < cw_width l1 l2 window0)%Z ->
+     (0 <= s + cw_shift l1 l2 window0 (Z.of_nat i - 1) <= l2)%Z ->
+     W (Z.of_nat i) s = Mf d pen p1b p2b i (Z.to_nat (s + cw_shift l1 l2 window0 (Z.of_nat i - 1)))) ->
+  (forall i j : nat, Mf d pen p1b p2b (S i) (S j) <> Inf ->
+     (band_lo l1 l2 (cw_window l1 l2 window0) (Z.of_nat i) <= Z.of_nat j < band_hi l1 l2 (cw_window l1 l2 window0) (Z.of_nat i))%Z) ->
+  forall fuel i j wpsi, (i + j <= fuel)%nat -> (Z.of_nat i <= l1)%Z -> (Z.of_nat j <= l2)%Z -> Mf d pen p1b p2b i j <> Inf ->
+  wpsi = (Z.of_nat j - cw_shift l1 l2 window0 (Z.of_nat i - 1))%Z ->
+  path_cost d pen p1b p2b i j (c_trace l1 l2 window0 pen W fuel i j wpsi) = Some (Mf d pen p1b p2b i j).
+Proof.
+  intros l1 l2 window0 H1 H2 Hw d pen p1b p2b W HW Hband fuel i j wpsi Hf Hi Hj Hfin Hinv.
+  apply (c_trace_cost l1 l2 window0 H1 H2 Hw d pen p1b p2b W HW Hband fuel i j wpsi Hf Hi Hj Hfin Hinv).
+Qed.
